@@ -4,7 +4,7 @@ import numpy as np
 from harness import common as C
 from harness import zoo as Z
 
-ANCHORS = ["T7lazy", "T3"]
+ANCHORS = ["T7lazy", "T3", "T8fwd"]
 MODELS = ["Lazy"]
 RULE = ("every dask-capable model class x chunk layout (single chunk, along samples, along features, both, one element per chunk where the back-end "
         "accepts it) x scheduler (synchronous, threads with 1/2/8 workers) x compute in {True, False} x check_nans; scheduler invocations are counted "
@@ -44,6 +44,9 @@ def is_lazy(v):
     return isinstance(getattr(v, "data", None), da.Array)
 
 
+DERIVED_INPUT = ("OPA", "ExtendedEOF-prereduced")   # data["input_data"] holds results of an inner PCA step, not the user's array
+
+
 def run(ctx):
     C.setup_impl_env(prior_use=0)
     import dask
@@ -52,7 +55,7 @@ def run(ctx):
     import xeofs as xe
     rng = ctx.rng.child("c12").np
     specs = Z.specs()
-    classes = ["EOF", "EOF-uncentred", "ExtendedEOF", "SparsePCA", "MCA", "CPCCA", "POP", "OPA", "EOFRotator", "MCARotator"]
+    classes = ["EOF", "EOF-uncentred", "ExtendedEOF", "ExtendedEOF-prereduced", "SparsePCA", "MCA", "MCA-prereduced", "CPCCA", "POP", "OPA", "EOFRotator", "MCARotator"]
     scheds = [("synchronous", dask.local.get_sync)] + ([("threads", dask.threaded.get)] if True else [])
     reps = ctx.n(1, 4)
     for rep in range(reps):
@@ -60,10 +63,13 @@ def run(ctx):
         X = Z.data2d(rng, n, p, "x", red=True)
         Y = Z.data2d(rng, n, p - 1, "y", red=True)
         for name in classes:
-            base = name.replace("Rotator", "").replace("-uncentred", "")
+            base = name.replace("Rotator", "").replace("-uncentred", "").replace("-prereduced", "")
             sp = specs[base]
             cross = sp.kind == "cross"
             extra = dict(use_pca=False) if cross else {}
+            if name.endswith("-prereduced"):
+                # the model runs a PCA step of its own in front of its algorithm: that step must be as lazy as the model
+                extra = dict(use_pca=True, n_pca_modes=4) if cross else dict(n_pca_modes=4)
             if name.endswith("-uncentred"):
                 extra["center"] = False     # the data has a non-zero mean: variances are about the mean whatever the array type
 
@@ -131,8 +137,9 @@ def run(ctx):
                             # the input data is never replaced by an in-memory copy
                             for key in ("input_data", "input_data1", "input_data2"):
                                 # OPA stores the retained PC series (n x n_pca_modes, results of its inner EOF) under this name,
-                                # not the user's data: with compute=True they are computed like any other result
-                                if key in m.data and not is_lazy(m.data[key]) and not (name == "OPA" and compute):
+                                # not the user's data: with compute=True they are computed like any other result; the same holds
+                                # for the delay-embedded PC series of a pre-reduced ExtendedEOF
+                                if key in m.data and not is_lazy(m.data[key]) and not (name in DERIVED_INPUT and compute):
                                     ctx.violation("C12:%s:input-loaded" % name, "%s: data[%r] is an in-memory array after fit on dask input (%s)" % (name, key, tag), replay)
                             # later compute() yields the eager results
                             try:
@@ -148,7 +155,7 @@ def run(ctx):
                                 with dask.config.set(scheduler=getter):
                                     m.compute()
                                 for key in ("input_data", "input_data1", "input_data2"):
-                                    if key in m.data and not is_lazy(m.data[key]) and not (name == "OPA" and compute):
+                                    if key in m.data and not is_lazy(m.data[key]) and not (name in DERIVED_INPUT and compute):
                                         ctx.violation("C12:%s:input-loaded-by-second-compute" % name, "%s: data[%r] is an in-memory array after a second compute() (%s)" % (name, key, tag), replay)
                             except Exception as e:
                                 ctx.violation("C12:%s:second-compute-error:%s" % (name, C.errkind(e)), "%s: a second compute() raised %r (%s)" % (name, e, tag), replay)
@@ -173,7 +180,7 @@ def run(ctx):
             ctx.oblige("correspondence:force-points", "correspondence", False, out[-500:])
         else:
             pred = C.parse_int_list((C.parse_evals(out) or [""])[0])
-            fam = {"EOF": 0, "EOF-uncentred": 0, "ExtendedEOF": 0, "SparsePCA": 0, "MCA": 1, "CPCCA": 1, "EOFRotator": 2, "MCARotator": 3, "POP": 4, "OPA": 5}
+            fam = {"EOF": 0, "EOF-uncentred": 0, "ExtendedEOF": 0, "ExtendedEOF-prereduced": 0, "SparsePCA": 0, "MCA": 1, "MCA-prereduced": 1, "CPCCA": 1, "EOFRotator": 2, "MCARotator": 3, "POP": 4, "OPA": 5}
             bad = []
             for nm, obs in ctx.extra.get("lazy_calls", {}).items():
                 p_nonzero = pred[fam[nm]] > 0
